@@ -129,7 +129,7 @@ def rule_messages(rep: Report, rid="C14.msg") -> None:
             else:
                 d = nf.resolve_ref_dict(I, leaf, tree)
                 ok = ok and d is not None and set(d) == {"line", "column"} and d["line"][0] == ("item", tl, const("line")) \
-                    and lin_eq(d["column"][0], ("binop", "Add", ("attr", line, "indent"), const(1)))
+                    and lin_eq(d["column"][0], ("binop", "Add", ("attr", line, N.INDENT), const(1)))
         ok = ok and has in dec[0][0] and col in dec[0][0]
     rep.ob("C04.err" if rid.startswith("C04") else rid, "an unexpected-line error is located at the token's own location, falling back to (line, indent + 1) when no column was set",
            ok, **kw, expected="token.location if it has a column else {'line': token line, 'column': token.line.indent + 1}", found=fmt(loc, I) if loc else None)
@@ -215,26 +215,70 @@ def rule_cap(rep: Report, rid="C01.cap") -> None:
            expected="append, then if len(context.errors) > 10: raise CompositeParserException(context.errors)",
            found=(f"raise guarded by {cap['guard']} -> first satisfied at {cap['threshold']} errors; carries the list: {cap['carries_list']}" if cap
                   else f"{a['n_raises']} raise(s), none guarded by the list length right after the append"))
-    # the errors list is written only here (through any alias)
+    # the errors list is written only here (through any alias, or by a helper that is handed the list)
     f = facts()
     sites = 0
+
+    def mutated_params(callee, depth=0):
+        """Positions of the parameters a function changes in place (directly, or by handing them on)."""
+        ps = callee.params()
+        out = set()
+        for n in ast.walk(callee.node):
+            if isinstance(n, ast.Call) and isinstance(n.func, ast.Attribute) and n.func.attr in Interp.MUTATORS and isinstance(n.func.value, ast.Name) \
+                    and n.func.value.id in ps:
+                out.add(ps.index(n.func.value.id))
+            elif isinstance(n, ast.AugAssign) and isinstance(n.target, ast.Name) and n.target.id in ps:
+                out.add(ps.index(n.target.id))
+            elif isinstance(n, ast.Call) and depth < 2:
+                inner = resolve_callee(callee, n)
+                if inner is not None:
+                    mp = mutated_params(inner, depth + 1)
+                    off = 1 if (inner.cls is not None and not inner.is_static and isinstance(n.func, ast.Attribute)) else 0
+                    for i, a_ in enumerate(n.args):
+                        if isinstance(a_, ast.Name) and a_.id in ps and (i + off) in mp:
+                            out.add(ps.index(a_.id))
+        return out
+
+    def resolve_callee(fn, call):
+        if isinstance(call.func, ast.Name):
+            r = f.resolve_name(fn.module, call.func.id)
+            return r[1] if r is not None and r[0] == "func" else None
+        if isinstance(call.func, ast.Attribute) and isinstance(call.func.value, ast.Name) and fn.cls is not None and fn.params() \
+                and call.func.value.id == fn.params()[0]:
+            return fn.cls.find_method(call.func.attr)
+        return None
+
     for fn in f.all_functions():
         if fn.module.name == "gherkin.inout":
             continue
         aliases = set()
         for n in ast.walk(fn.node):
-            if isinstance(n, ast.Assign) and len(n.targets) == 1 and isinstance(n.targets[0], ast.Name) and isinstance(n.value, ast.Attribute) and n.value.attr == "errors" \
+            if isinstance(n, ast.Assign) and len(n.targets) == 1 and isinstance(n.targets[0], ast.Name) and isinstance(n.value, ast.Attribute) and n.value.attr == N.CTX_ERRORS \
                     and not (isinstance(n.value.value, ast.Name) and n.value.value.id == "self"):
                 aliases.add(n.targets[0].id)
         for n in ast.walk(fn.node):
             if isinstance(n, ast.Call) and isinstance(n.func, ast.Attribute) and n.func.attr in Interp.MUTATORS:
                 v = n.func.value
-                hit = (isinstance(v, ast.Attribute) and v.attr == "errors" and not (isinstance(v.value, ast.Name) and v.value.id == "self")) or \
+                hit = (isinstance(v, ast.Attribute) and v.attr == N.CTX_ERRORS and not (isinstance(v.value, ast.Name) and v.value.id == "self")) or \
                     (isinstance(v, ast.Name) and v.id in aliases)
                 if hit:
                     sites += 1
                     rep.ob(rid, "the collected-error list is only changed by add_error", fn.qualname == fi.qualname, file=fn.file, line=n.lineno, function=fn.qualname,
                            expected=fi.qualname, found=fn.qualname)
+            if isinstance(n, ast.Call):
+                callee = resolve_callee(fn, n)
+                if callee is None:
+                    continue
+                off = 1 if (callee.cls is not None and not callee.is_static and isinstance(n.func, ast.Attribute)) else 0
+                mp = None
+                for i, v in enumerate(n.args):
+                    if (isinstance(v, ast.Attribute) and v.attr == N.CTX_ERRORS and not (isinstance(v.value, ast.Name) and v.value.id == "self")) or \
+                            (isinstance(v, ast.Name) and v.id in aliases):
+                        mp = mutated_params(callee) if mp is None else mp
+                        if (i + off) in mp:
+                            sites += 1
+                            rep.ob(rid, "the collected-error list is only changed by add_error", fn.qualname == fi.qualname, file=fn.file, line=n.lineno,
+                                   function=fn.qualname, expected=fi.qualname, found=f"{fn.qualname} (through {callee.qualname})")
     rep.floor("error list mutation sites", sites, 1)
 
 
@@ -263,7 +307,7 @@ def rule_noast(rep: Report, rid="C14.noast") -> None:
     fi = P.fi
     rep.used_function(fi.qualname)
     kw = dict(file=PFILE, line=fi.node.lineno, function=fi.qualname)
-    errs = P.ctx_attr("errors")
+    errs = P.ctx_attr(N.CTX_ERRORS)
     raises = [(n, c) for n, c in P.flat if n[0] == "raise" and not nf.loops_in_ctx(c)]
     gr = P.ev("get_result")
     er = P.ev("end_rule")
